@@ -679,6 +679,10 @@ func (w *World) StepOnce(maxIdle time.Duration) bool {
 		w.lastTask = t
 		w.spinCheck(t)
 		w.S.Step(t)
+		// wait until the task has parked again: harness code that runs after this step (a RunUntil
+		// condition, the scenario itself) must never overlap a running task - both draw from the
+		// choice stream, and the order of their draws would depend on the Go scheduler
+		w.S.Settle()
 	case actNet:
 		a := nets[w.C.Choose("net", len(nets))]
 		if a.dial != nil {
